@@ -236,9 +236,18 @@ def guarded(ctx: Ctx, prop: str, fn, what: str = "bounded harness") -> None:
             raise
         tb = traceback.extract_tb(e.__traceback__)
         repo_src = os.path.realpath(os.environ.get("AHBICHT_REPO", "/repo"))
-        if not tb or not os.path.realpath(tb[-1].filename).startswith(repo_src):
+        missing_name = isinstance(e, (AttributeError, ImportError)) and "ahbicht" in str(e)
+        if not tb or not (os.path.realpath(tb[-1].filename).startswith(repo_src) or missing_name):
             raise
         where = f"{tb[-1].filename}:{tb[-1].lineno} in {tb[-1].name}"
+        if missing_name:
+            # the harness reaches the code under test through a name the tree no longer has (renamed / moved helper)
+            ctx.obligation("bounded/harness-completed", "undecided", backend="CPython (bounded harness)",
+                           seconds=time.time() - t0,
+                           detail=f"{type(e).__name__}: {str(e)[:200]} at {where}: the {what} of {prop} uses a name of the "
+                                  f"library that this tree does not have; the remaining bounded clauses were not evaluated")
+            ctx.note(f"{what} of {prop} stopped: {type(e).__name__}: {str(e)[:120]}")
+            return
         ctx.obligation("bounded/harness-completed", "undecided", backend="CPython (bounded harness)",
                        seconds=time.time() - t0,
                        detail=f"the code under test raised {type(e).__name__}: {str(e)[:200]} at {where}, which the {what} "
